@@ -25,10 +25,11 @@ EXTENDS Naturals, Sequences, FiniteSets, TLC, Json
             DirectSuperOnly    only the closest super-property is inferred
  ***************************************************************************************************)
 CONSTANTS Model, MaxSteps, Hist,
+          AllowDie,          \* part of the population may die between assertions (C14: "whatever lived and died before")
           TransOnlyAsserted, TransOutOnly, NoInverseOfInferred, DirectSuperOnly
 
-VARIABLES asserted, edges, steps, h
-vars == <<asserted, edges, steps, h>>
+VARIABLES asserted, edges, steps, h, gone
+vars == <<asserted, edges, steps, h, gone>>
 
 \* ---------------- schema
 Univ == Model = "univ"
@@ -102,20 +103,35 @@ AddRel(E, e, asrt) ==
        IN IF doTrans /\ ~TransOutOnly THEN FoldSet(E4, ins) ELSE E4
 
 \* ---------------- behaviours: one assertion per step (single assignment, append or add - one new element)
-Init == asserted = {} /\ edges = {} /\ steps = 0 /\ h = <<>>
+Init == asserted = {} /\ edges = {} /\ steps = 0 /\ h = <<>> /\ gone = {}
 \* a single-valued field is written at most once per subject (a second write would replace the value while the
 \* monotone fact base keeps both relations - outside what C15 states)
 WellFormed(f) == SingleValued(f[1]) => \A g \in asserted : ~(g[1] = f[1] /\ g[2] = f[2])
-AssertFact(f) == /\ f \notin asserted /\ WellFormed(f)
+AssertFact(f) == /\ f \notin asserted /\ WellFormed(f) /\ f[2] \notin gone /\ f[3] \notin gone /\ UNCHANGED gone
              /\ asserted' = asserted \cup {f}
              /\ edges' = AddRel(edges, f, TRUE)
              /\ h' = IF Hist THEN Append(h, [f |-> f, facts |-> Closure(asserted \cup {f})]) ELSE h
-Next == steps < MaxSteps /\ steps' = steps + 1 /\ \E f \in Assertable : AssertFact(f)
+\* Die(D): the program drops its references to the instances D, they are reclaimed and the registry is swept.  Only instances that
+\* no survivor refers to can die (a fact <<p, s, t>> is a reference from s to t held in s's field).  What the survivors hold
+\* stays: every fact among survivors - asserted or inferred - is from now on a given; facts about the dead are gone.
+CanDie(D) == /\ D # {} /\ D \cap gone = {}
+             /\ (\A e \in edges : e[3] \in D => e[2] \in D)
+             /\ (\A r \in Roles : Taker[r] \in D => r \in D)          \* a role holds its taker
+Die(D) == /\ AllowDie /\ CanDie(D) /\ \E e \in edges : e[2] \in D \/ e[3] \in D      \* only deaths that matter
+          /\ gone' = gone \cup D
+          /\ asserted' = { f \in Closure(asserted) : f[2] \notin D /\ f[3] \notin D }
+          /\ edges' = { e \in edges : e[2] \notin D /\ e[3] \notin D }
+          /\ h' = IF Hist THEN Append(h, [f |-> <<"die", "-", "-">>, die |-> D, facts |-> asserted']) ELSE h
+Next == steps < MaxSteps /\ steps' = steps + 1 /\ (\/ \E f \in Assertable : AssertFact(f)
+                                                   \/ \E D \in (SUBSET Inst) : Cardinality(D) <= 2 /\ Die(D))
 Spec == Init /\ [][Next]_vars
 
 \* ---------------- properties
 ClosureReached == edges = Closure(asserted)            \* I => R at every quiescent point, for every order
-Monotone == [][edges \subseteq edges']_vars
+Monotone == [][gone' # gone \/ edges \subseteq edges']_vars
 OrderIndependent == TRUE                                \* implied: Closure depends on the set `asserted` only
 Emit == IF Hist /\ steps = MaxSteps THEN PrintT(ToJson(h)) ELSE TRUE
+\* generator for the partial-death histories: only those in which a death is followed by an assertion
+EmitDie == IF Hist /\ steps = MaxSteps /\ (\E i \in 1..(Len(h) - 1) : h[i].f[1] = "die" /\ h[i + 1].f[1] # "die")
+           THEN PrintT(ToJson(h)) ELSE TRUE
 ====
